@@ -4385,10 +4385,8 @@ class FlowIR(object):
 
                 weights.append(stage_weight)
 
-            # VV: adding floats is hard, let's assume that there're at most 2 decimals
-            int_weights = [int(e * 1000) for e in weights]
-
-            if sum(int_weights) != 1000:
+            # VV: adding floats is hard, tolerate tiny rounding errors; weights must be non-negative and add up to 1.0
+            if min(weights) < 0.0 or abs(sum(weights) - 1.0) > 1e-6:
                 fallbackWeight = int(1000 / num_stages) / 1000.0
 
                 flowirLogger.log(19, "Stage weights do not add to one: %s = %3.3lf\n" % (weights, sum(weights)))
